@@ -32,6 +32,7 @@ class Executor(Engine, ExprMixin, StmtMixin, CallMixin):
         self.logger = None
         self.spec_globals = {}
         self.call_log = []
+        self.folds = {}
 
     # ------------------------------------------------------------------ spec evaluation
     def spec_frame(self, c, old_state):
@@ -196,7 +197,7 @@ class Executor(Engine, ExprMixin, StmtMixin, CallMixin):
         import re as _re
 
         def mentions_ghost(expr):
-            return any(_re.search(r'\b%s\b' % _re.escape(g), expr) for g in c.ghost)
+            return 'FOLD(' in expr or any(_re.search(r'\b%s\b' % _re.escape(g), expr) for g in c.ghost)
         for exname, cond in c.raises.items():
             exc = self.exc_class(exname)
             if cond == 'maybe' or mentions_ghost(cond):
@@ -386,6 +387,34 @@ class Executor(Engine, ExprMixin, StmtMixin, CallMixin):
         env.update({k: v for k, v in st.vars.items() if v is not UNBOUND})
         self.havoc(st, c, env, spec.get('modifies', []))
 
+    def fold_value(self, name, k):
+        """FOLD(name, k): value of the declared left fold after k elements (uninterpreted; the defining
+        equations are instantiated at 0 and at the loop index by the generator)."""
+        decl = self.folds.get(name)
+        if decl is None:
+            raise EngineError('unknown fold %s' % name)
+        uf = self.get_uf('fold_' + name, IntS, Val)
+        return V(uf(k), parse_spec(decl.get('type')))
+
+    def fold_axioms(self, st, spec, ivar_term, at_head):
+        c = self.cur_contract
+        for name, decl in spec.get('folds', {}).items():
+            self.folds[name] = decl
+            uf = self.get_uf('fold_' + name, IntS, Val)
+            env = dict(self.top_env)
+            env.update({k: v for k, v in st.vars.items() if v is not UNBOUND})
+            ts = parse_spec(decl.get('type'))
+            if not at_head:
+                init = self.eval_in(st, c, env, decl['init'])
+                self.assume(st, uf(z3.IntVal(0)) == init.t)
+            else:
+                env['ACC'] = V(uf(ivar_term), ts)
+                nxt = self.eval_in(st, c, env, decl['step'])
+                self.assume(st, uf(ivar_term + 1) == nxt.t)
+                if ts is not None:
+                    self.assume(st, ts.assumption(uf(ivar_term)))
+                    self.assume(st, ts.assumption(uf(ivar_term + 1)))
+
     def loop_for_invariant(self, st, s, it, ordinal):
         spec = self.loop_spec(ordinal)
         if spec is None:
@@ -410,6 +439,7 @@ class Executor(Engine, ExprMixin, StmtMixin, CallMixin):
         n = self.list_len(st, r)
         self.assume(st, n >= 0)
         st.vars[ivar] = V(mkI(0), parse_spec('int'))
+        self.fold_axioms(st, spec, None, False)
         self.check_inv(st, spec, name, 'init', None)
         head_heap_elem = z3.Select(self.harr(st, '$ELEM'), r)
         self.havoc_loop(st, spec, s.body + [pyast.Assign(targets=[s.target], value=pyast.Constant(value=None))])
@@ -448,6 +478,7 @@ class Executor(Engine, ExprMixin, StmtMixin, CallMixin):
             if view == 'enumerate':
                 x = PyTuple([V(mkI(iv), parse_spec('int')), x])
         self.assign(st, s.target, x)
+        self.fold_axioms(st, spec, iv, True)
         loop_id = object()
         fr.loop_stack.append(loop_id)
         start = len(fr.exits)
